@@ -198,6 +198,14 @@ def run(chk):
                     l1 = np.vectorize(lambda e: coeffs_in(T.lift(e), "L", 3)[1], otypes=[object])(np.array(A2, dtype=object))
                     chk.eq_array(f"C29.rg.order2.single_logs[nf={nf}]", l1[sel2], (emb1 - full1)[sel2], fn="ekore.operator_matrix_elements.unpolarized.space_like.as2:A_singlet", replay=rp, ranges=RG,
                                  goal="[L^1] A2 == gamma1_emb(nf) - gamma1(nf+1) (NLO anomalous dimensions of both schemes in the (g, q, h) basis), gluon and light-quark columns")
+                    # MSbar masses: the mass parameter m(m) does not run, so the L dependence required by RG invariance is the same as for pole masses -- the two
+                    # schemes may differ by an L-INDEPENDENT term only (the conversion of the mass inside the O(a_s) logarithm)
+                    A2m = omod.A_singlet((2, 0), N, nf, L, True)[1]
+                    for pw in (1, 2):
+                        lm = np.vectorize(lambda e, pw=pw: coeffs_in(T.lift(e), "L", 3)[pw], otypes=[object])(np.array(A2m, dtype=object))
+                        lp = np.vectorize(lambda e, pw=pw: coeffs_in(T.lift(e), "L", 3)[pw], otypes=[object])(np.array(A2, dtype=object))
+                        chk.eq_array(f"C29.rg.order2.msbar_same_logs[nf={nf},L^{pw}]", lm, lp, fn="ekore.operator_matrix_elements.unpolarized.space_like.as2:A_singlet", replay=rp, ranges=RG,
+                                     goal="MSbar masses: the coefficients of L and L^2 of A2 are those of the pole scheme (the schemes differ by an L-independent term)")
                     An2 = omod.A_non_singlet((2, 0), N, nf, L)[1]
                     ns_l = coeffs_in(T.lift(An2[0, 0]), "L", 3)
                     chk.eq(f"C29.rg.order2.non_singlet.single_log[nf={nf}]", ns_l[1], nsp_ - nsp1_, fn="ekore.operator_matrix_elements.unpolarized.space_like.as2:A_qq_ns", replay=rp, ranges=RG, goal="[L^1] A_qq,ns^(2) == gamma_ns+^(1)(nf) - gamma_ns+^(1)(nf+1)")
